@@ -15,6 +15,12 @@ theorem rateAlways_eq (r : Q) : rateAlways r = r.geOne := by
 theorem drawKeeps_eq (d r : Q) : drawKeeps d r = d.le r := by
   simp [drawKeeps, Q.cmp, PlaybackModel.Source.drawKeepCmp, Cmp.int, Q.le]
 
+/-- `disable_recording()` as it stands in the source: switch off, then `self.discard_recording()` (F15).  Everything the
+theorems say about programs that flip the switch goes through this equation; it stops checking when the call disappears. -/
+theorem doSetEnabled_eq (s : St) (b : Bool) :
+    doSetEnabled s b = if b then { s with enabled := true } else { doDiscard s with enabled := false } := by
+  simp [doSetEnabled, PlaybackModel.Source.disableDiscards]
+
 /-- `ratio >= 1` / `self._random.random() <= ratio` in `S3TapeCassette._should_sample`, as they stand in the source -/
 theorem s3ShouldSample_eq (ratio : Option Q) (d : Q) :
     s3ShouldSample ratio d = (match ratio with
